@@ -516,6 +516,34 @@ fn def_method_impl(
                         }
                     };
 
+                    // The unmock function registered for this method (if any) gets the surrogate receiver.
+                    let unmock_input_eval_arm = attr.get_unmock_fn(index).map(
+                        |UnmockFn {
+                             path: unmock_path,
+                             params: unmock_params,
+                         }| {
+                            let unmock_expr = match unmock_params {
+                                None => match &receiver {
+                                    Receiver::Pin { .. } => quote! {
+                                        #unmock_path(::core::pin::Pin::new(__self), #fn_params) #opt_dot_await
+                                    },
+                                    _ => quote! {
+                                        #unmock_path(__self, #fn_params) #opt_dot_await
+                                    },
+                                },
+                                Some(UnmockFnParams { params }) => quote! {
+                                    #unmock_path(#params) #opt_dot_await
+                                },
+                            };
+
+                            quote! {
+                                #prefix::private::Continuation::Unmock => {
+                                    #unmock_expr
+                                }
+                            }
+                        },
+                    );
+
                     let default_impl_input_eval_arm = if default_delegator_call.is_some() {
                         quote! {
                             #prefix::private::Continuation::CallDefaultImpl => {
@@ -537,6 +565,7 @@ fn def_method_impl(
                             #prefix::private::Continuation::Answer(__answer_fn) => {
                                 __answer_fn(__self, #fn_params)
                             }
+                            #unmock_input_eval_arm
                             #default_impl_input_eval_arm
                             cont => cont.report(__self)
                         }
